@@ -40,24 +40,53 @@ fn write_ndjson(path: &str, evs: &[Value]) {
 }
 
 fn cmd_run(args: &[String]) {
+    use std::sync::atomic::{AtomicUsize, Ordering};
+    use std::sync::Arc;
     let inp = arg(args, "--in").expect("--in");
     let out = arg(args, "--out").expect("--out");
     let scripts = read_ndjson(&inp);
     engine::install_panic_hook();
+    // watchdog: the scenarios are run on one thread with hand-polled futures; if the code under test blocks that
+    // thread (a synchronous lock that can never be granted), nothing moves any more: report which scenario and exit 3.
+    // What finished before is already on disk.
+    let cur = Arc::new(AtomicUsize::new(0));
+    {
+        let cur = cur.clone();
+        std::thread::spawn(move || {
+            let mut last = (usize::MAX, u64::MAX);
+            let mut idle = 0;
+            loop {
+                std::thread::sleep(std::time::Duration::from_millis(500));
+                let now = (cur.load(Ordering::SeqCst), sim::activity());
+                if now == last {
+                    idle += 1;
+                } else {
+                    idle = 0;
+                    last = now;
+                }
+                if idle >= 30 {
+                    println!("HANG scenario_index={}", now.0);
+                    std::process::exit(3);
+                }
+            }
+        });
+    }
     let rt = tokio::runtime::Builder::new_current_thread().enable_all().build().unwrap();
-    let mut all = vec![];
+    let mut f = std::io::BufWriter::new(std::fs::File::create(&out).expect("create out"));
+    let mut n = 0usize;
     rt.block_on(async {
-        for sc in &scripts {
+        for (k, sc) in scripts.iter().enumerate() {
+            cur.store(k, Ordering::SeqCst);
             let tr = engine::run_scenario(sc).await;
-            all.extend(tr);
+            for mut e in tr {
+                n += 1;
+                e["i"] = serde_json::json!(n);
+                writeln!(f, "{}", e).unwrap();
+            }
+            f.flush().unwrap();
         }
     });
-    // renumber globally
-    for (i, e) in all.iter_mut().enumerate() {
-        e["i"] = serde_json::json!(i + 1);
-    }
-    write_ndjson(&out, &all);
-    println!("scenarios={} events={}", scripts.len(), all.len());
+    println!("scenarios={} events={}", scripts.len(), n);
 }
 
 fn cmd_fq(args: &[String]) {
